@@ -114,7 +114,8 @@ func modelConfigs(thorough bool) []mcfg {
 		{"req", []string{"R", "Rm", "Rmnull", "U"}, 4, 1, false},
 		{"req2", []string{"R", "Rm", "S"}, 3, 2, false},
 		{"keys", []string{"Ka", "Kbc", "Kboth", "Kanull", "Kb", "N", "Nbad"}, 3, 1, false},
-		{"batch", []string{"Mid", "Malt", "Mmiss", "Rm", "N"}, 3, 2, false},
+		{"batch", []string{"Mid", "Malt", "Mmiss", "Rm", "N"}, 3, 1, false},
+		{"batch2", []string{"Mid", "Malt", "Rm"}, 3, 2, false},
 		{"wide", allKinds, 2, 2, false},
 		{"wide3", []string{"S", "Snull", "Kbc", "N", "Mid", "Malt", "U", "T0"}, 3, 1, false},
 	}
